@@ -127,12 +127,21 @@ Theorem C05_docsources :
 Proof. exact get_docstring_spec. Qed.
 
 (* A member listed as inherited via the chain b0 ... c (templatewriter.util.nested_bases/unmasked_attrs)
-   is the one attribute lookup on c returns: no class before b0 in the MRO masks it. *)
+   is visible and is the one attribute lookup on c returns: no class before b0 in the MRO defines the
+   name -- whether that definition is visible or hidden (--privacy) makes no difference. *)
 Theorem C05_unmasked :
   forall (ns : namespace) (m : list cls) bl o,
     In bl (nested_bases_of m) -> In o (unmasked_attrs ns bl) ->
-    exists b0 rest, bl = b0 :: rest /\ In o (ns b0) /\ lookup (defines_of ns) m (m_name o) b0.
+    exists b0 rest, bl = b0 :: rest /\ In o (ns b0) /\ m_hidden o = false /\
+                    lookup (defines_of ns) m (m_name o) b0.
 Proof. exact unmasked_lookup. Qed.
+
+(* Conversely, the member attribute lookup returns is listed (under its class) whenever it is visible. *)
+Theorem C05_unmasked_complete :
+  forall (ns : namespace) (m : list cls) b0 o,
+    lookup (defines_of ns) m (m_name o) b0 -> In o (ns b0) -> m_hidden o = false ->
+    exists rest, In (b0 :: rest) (nested_bases_of m) /\ In o (unmasked_attrs ns (b0 :: rest)).
+Proof. exact lookup_unmasked. Qed.
 
 (* The "overrides" note of a member names what attribute lookup finds once the class itself is skipped. *)
 Theorem C05_overrides :
@@ -185,16 +194,16 @@ Qed.
 (* members: 1 defines f (doc 7) and g (doc 8); 2 defines f without a docstring; 3 defines g with the empty docstring *)
 Definition ex_ns : namespace := fun c =>
   match c with
-  | 1%N => [{| m_name := 100; m_doc := Some 7%N |}; {| m_name := 101; m_doc := Some 8%N |}]
-  | 2%N => [{| m_name := 100; m_doc := None |}]
-  | 3%N => [{| m_name := 101; m_doc := Some 0%N |}]
+  | 1%N => [{| m_name := 100; m_doc := Some 7%N; m_hidden := false |}; {| m_name := 101; m_doc := Some 8%N; m_hidden := false |}]
+  | 2%N => [{| m_name := 100; m_doc := None; m_hidden := false |}]
+  | 3%N => [{| m_name := 101; m_doc := Some 0%N; m_hidden := true |}]
   | _ => []
   end.
 Example C05_members_satisfiable :
   is_class ex_h 2 = true /\
-  contents_get ex_ns 2 100 = Some {| m_name := 100; m_doc := None |} /\
-  get_docstring ex_h ex_ns 2 {| m_name := 100; m_doc := None |} = (Some 7%N, Some 1%N) /\
-  get_docstring ex_h ex_ns 3 {| m_name := 101; m_doc := Some 0%N |} = (None, Some 3%N) /\
+  contents_get ex_ns 2 100 = Some {| m_name := 100; m_doc := None; m_hidden := false |} /\
+  get_docstring ex_h ex_ns 2 {| m_name := 100; m_doc := None; m_hidden := false |} = (Some 7%N, Some 1%N) /\
+  get_docstring ex_h ex_ns 3 {| m_name := 101; m_doc := Some 0%N; m_hidden := true |} = (None, Some 3%N) /\
   option_map fst (class_find ex_h ex_ns 4 101) = Some 3%N /\
   option_map fst (class_find ex_h ex_ns 4 100) = Some 2%N.
 Proof. vm_compute. repeat split. Qed.
